@@ -10,7 +10,29 @@ COMMON_NOTE = ("Trusted: CPython's ast (the parsed tree is what runs), sa.index 
                "written in DESIGN.md. Nothing of bridge_env is imported or executed. Unrecognised code shapes are "
                "reported as ANALYSIS-ERROR (exit 2), never as a pass.")
 
+PATHS = 'static analysis: path-sensitive effect summary (all syntactic paths, helpers inlined, reaching-definition substitution) + guards evaluated as truth tables over abstract valuations; enum helper tables by constant folding'
+
 CLAIMS = {
+    'C01': dict(
+        technique=PATHS,
+        text='Legality as an inductive invariant of the 38-slot vector: for every call x slot value x flags x last bidder x seat, the '
+             'paths of take_bid consistent with that valuation are shown to (R1) refuse without any write when the slot is 0, (R2) never '
+             'refuse otherwise, (R3) start from all-ones minus X/XX, (R4) disable exactly the prefix up to the bid, never pass, (R5) set the '
+             'X / XX slots to the double / redouble rights of the NEXT caller, (R7) update the flags as the Laws require, (R8) be the only '
+             'writers. Holds for all histories by induction over calls; decided on all paths, not on sampled auctions.',
+        ref='4/C01'),
+    'C02': dict(
+        technique=PATHS,
+        text='For every call x history shape (length 0..4, last two calls pass or not) x seat: accepting paths end FINISHED exactly when the '
+             'Laws say so; each appends the call once to the common and to the pre-advance seat\'s history; turn advances clockwise (folded '
+             'table) or becomes none exactly on FINISHED; after the end every call raises before any write; dealer calls first.',
+        ref='4/C02'),
+    'C03': dict(
+        technique=PATHS,
+        text='First-to-name table written only by real bids, under the emptiness test of exactly the slot written, with the bidding seat '
+             '(every bid x seat x slot empty/occupied); flags reset by every bid; contract() evaluated under every valuation (ended or not, '
+             'passed out, 3 doubling states x 4 vulnerabilities x bidder x recorded first namer) and compared field by field.',
+        ref='4/C03'),
     'C15': dict(
         technique='static analysis: table extraction by constant folding of the converter ASTs over complete finite domains; whole-table inverse/injectivity comparison',
         text='All converter tables (52 cards, 38 calls, 4 seats, 4 vulnerabilities x spellings, 35x3 contracts x vul x declarer, 2704 card pairs) '
